@@ -399,27 +399,21 @@ Definition leaked (r : list lop) (id : nat) : Prop :=
   exists k, kind_of r id = Some k /\ droppable k = false /\ uses r id = 0.
 
 Lemma leak_detected_lemma : forall ops s, wf_ops ops -> lrun ops st0 = Ok s ->
-  ((exists id, end_check s = Err (ELeak id) /\ leaked (rev ops) id) <-> exists id, leaked (rev ops) id) /\
   (end_check s = Ok tt <-> ~ exists id, leaked (rev ops) id) /\
-  (forall e, end_check s = Err e -> exists id, e = ELeak id).
+  (forall e, end_check s = Err e -> exists id, e = ELeak id /\ leaked (rev ops) id).
 Proof.
   intros ops s W H. apply lrun_inv in H; [|exact W]. destruct H as [_ (N & O & U & K)].
   unfold end_check. rewrite leak_raises_spec. destruct (unused s) as [|a l] eqn:Eu; simpl negb; cbv iota.
   - assert (NoLeak : ~ exists id, leaked (rev ops) id).
     { intros [id L]. apply U in L. destruct L. }
-    repeat split; try tauto.
-    + intros [id [Hd _]]. discriminate.
-    + intros e He. discriminate.
+    split; [tauto|]. intros e He. discriminate.
   - assert (Hl : In (last (a :: l) 0) (a :: l)).
     { destruct (exists_last (l := a :: l)) as [l' [x Hx]]; [discriminate|].
       rewrite Hx. rewrite last_last. apply in_or_app. right. left. reflexivity. }
     apply U in Hl. fold (leaked (rev ops) (last (a :: l) 0)) in Hl.
-    repeat split.
-    + intros _. exists (last (a :: l) 0). exact Hl.
-    + intros _. exists (last (a :: l) 0). split; [reflexivity | exact Hl].
-    + intros Hd. discriminate.
-    + intros Hn. exfalso. apply Hn. exists (last (a :: l) 0). exact Hl.
-    + intros e He. inversion He. eexists. reflexivity.
+    split.
+    + split; [discriminate|]. intros Hn. exfalso. apply Hn. exists (last (a :: l) 0). exact Hl.
+    + intros e He. inversion He. eexists. split; [reflexivity | exact Hl].
 Qed.
 
 (* ------------------------------------------------------------------------------- frozen *)
@@ -461,4 +455,25 @@ Proof.
   intros ovr muts I F xs. destruct (construct_contents ovr xs I) as [fl [C1 C2]].
   exists fl. repeat split; auto. intros m arg Hm. rewrite forallb_forall in F.
   eapply rejects_sound; [apply F; exact Hm | exact C1].
+Qed.
+
+(* ------------------------------------------------------------------- whole traced function *)
+Lemma trace_leaf_verdict_lemma : forall ins body ret,
+  let ops := (map LCreate ins ++ body ++ map LUse ret)%list in
+  wf_ops ops ->
+  (trace_leaf ins body ret = Ok tt <-> (legal [] ops /\ ~ exists id, leaked (rev ops) id)) /\
+  (forall e, trace_leaf ins body ret = Err e ->
+     (exists id, e = ELeak id /\ legal [] ops /\ leaked (rev ops) id) \/ ~ legal [] ops).
+Proof.
+  intros ins body ret ops W. unfold trace_leaf. fold ops.
+  pose proof (lrun_legal_iff ops W) as LI.
+  destruct (lrun ops st0) as [s|e0] eqn:R; simpl.
+  - pose proof (leak_detected_lemma ops s W R) as (L1 & L2).
+    assert (Lg : legal [] ops) by (apply LI; exists s; reflexivity).
+    split.
+    + rewrite L1. tauto.
+    + intros e He. left. destruct (L2 e He) as [id [-> Hl]]. exists id. auto.
+  - split.
+    + split; [discriminate|]. intros [Lg _]. apply LI in Lg. destruct Lg as [s Hs]. discriminate.
+    + intros e He. right. intros Lg. apply LI in Lg. destruct Lg as [s Hs]. discriminate.
 Qed.
